@@ -33,7 +33,7 @@ PROPS = {
                                                                       ("geom", dict(quick=[("ORD", 3000)], thorough=[("ORD", 150000)]))],
                 design="DESIGN.md section 4 C10", trusted=[CLI_TRUST]),
     "C11": dict(props_file="props/C11.v", needs_gen=True, engines=[("geom", dict(quick=[("C11", 4000)], thorough=[("C11", 200000)])), ("cli", dict(quick=3, thorough=40))],
-                design="DESIGN.md section 4 C11"),
+                design="DESIGN.md section 4 C11", trusted=[FNS_TRUST]),
     "C08": dict(props_file="props/C08.v", needs_gen=True,
                 engines=[("opt", dict(focus="C08", quick=150, thorough=3000, coqeval_quick=4, coqeval_thorough=30)),
                          ("geom", dict(quick=[("C08", 1200)], thorough=[("C08", 40000)]))],
@@ -77,7 +77,7 @@ PROPS = {
     "C19": dict(props_file="props/C19.v", engines=[("opt", dict(focus="C19", quick=250, thorough=6000, coqeval_quick=6, coqeval_thorough=40)), ("cli", dict(quick=0, thorough=2, step_probe=True))],
                 design="DESIGN.md section 4 C19", trusted=[FNS_TRUST, CLI_TRUST]),
     "C20": dict(props_file="props/C20.v", engines=[("opt", dict(focus="C20", quick=250, thorough=6000, coqeval_quick=6, coqeval_thorough=40)), ("cli", dict(quick=2, thorough=30))],
-                design="DESIGN.md section 4 C20", trusted=[CLI_TRUST]),
+                design="DESIGN.md section 4 C20", trusted=[FNS_TRUST, CLI_TRUST]),
 }
 
 
